@@ -61,7 +61,7 @@ func init() {
 			"pool-classes-covered", "pool-constructors-covered", "keyed-value", "keyed-condition", "range-value", "range-condition",
 			"size-value", "size-condition", "size-template-valid", "mutating-value", "mutating-condition", "deep-reader-value",
 			"deep-reader-condition", "deep-eval-value", "deep-eval-condition", "isolated"},
-		CaseDeadlineS: 20,
+		CaseDeadlineS: 90, // above helperWallMax (helper.go): the helper's CPU clock decides, the engine's wall watchdog is the backstop
 		Bound:         bound,
 		Selftest:      selftest,
 	})
